@@ -862,11 +862,18 @@ Definition eol (u : st) : st :=
   let u1 := accept_opt u (rest_of_line (rest (pos u))) in
   set_pos u1 (pos u1 + line_term (rest (pos u1))).
 
-(** ** lex_inside_liquid_block_comment (lexer.py:1142-1182), loop. *)
+(** [self.accept(self.RE_WHITESPACE)]: move [pos] (only) past [[ \n\r\t]*]. *)
+Definition skip_ws (t : st) : st :=
+  set_pos t (pos t + fst (take_while is_ws (rest (pos t)))).
+
+(** ** lex_inside_liquid_block_comment (lexer.py:1142-1186), loop. Lines of the
+    comment block may be indented (fix of defect 31: the loop starts by
+    skipping whitespace). *)
 Fixpoint liquid_block_comment (fuel : nat) (t : st) (depth : nat) : res (st * ltok) :=
   match fuel with
   | O => OutOfFuel
   | S f =>
+    let t := skip_ws t in
     let r := rest (pos t) in
     let n := tag_name_len r in
     if negb (n =? 0) then
